@@ -390,10 +390,60 @@ def r5_lent_descriptors(ctx):
     return out
 
 
+PATH_MAX = 4096
+
+
+def r6_readlink_buffer(ctx):
+    """'returns the full length of the link': pathrs_*_readlink reports the length of the body the wrapper read.  The
+    wrapper detects truncation by an unused tail in its scratch buffer, so the buffer has to be longer than the longest
+    body the kernel can return (PATH_MAX-1 bytes; d_path() output for magic-links included): at least PATH_MAX."""
+    F = ctx.facts
+    T = ctx.tracer
+    fn = "syscalls::readlinkat"
+    if not F.has(fn):
+        return [violated("C17.R6", "readlinkat:buffer", "", "%s not found" % fn)]
+    b = F.body(fn)
+    sizes = []
+    for ty in b.local_tys:
+        m = re.fullmatch(r"\[(std::mem::MaybeUninit<u8>|u8); (\d+)\]", ty)
+        if m:
+            sizes.append(int(m.group(2)))
+    for t in b.calls():
+        c = t.callee or ""
+        if c.endswith("Vec::<T>::with_capacity") or c.endswith("vec::from_elem"):
+            ai = 0 if c.endswith("with_capacity") else 1
+            for o in T.origins_of_arg(t, ai):
+                if o.kind == "const" and o.const_int() is not None:
+                    sizes.append(o.const_int())
+    raw = list(b.calls("rustix::fs::readlinkat_raw", "rustix::fs::readlinkat", "libc::readlinkat"))
+    if not raw:
+        return [violated("C17.R6", "readlinkat:buffer", b.where(), "the readlink wrapper no longer calls readlinkat")]
+    if any((t.callee or "").endswith("rustix::fs::readlinkat") for t in raw) and not sizes:
+        return [holds("C17.R6", "readlinkat:buffer", raw[0].where(), "rustix::fs::readlinkat grows its buffer until the body fits")]
+    if not sizes:
+        return [unproven("C17.R6", "readlinkat:buffer", raw[0].where(), "cannot determine the size of the buffer the link body is read into")]
+    if min(sizes) >= PATH_MAX:
+        return [holds("C17.R6", "readlinkat:buffer", raw[0].where(), "scratch buffer of %d bytes >= PATH_MAX: a maximal body (PATH_MAX-1) leaves the byte that distinguishes it from a truncated one" % min(sizes))]
+    return [violated("C17.R6", "readlinkat:buffer", raw[0].where(), "scratch buffer of %d bytes: a link body of %d..%d bytes fills it completely and is reported as ENAMETOOLONG (or cut short) instead of with its full length" % (min(sizes), min(sizes), PATH_MAX - 1))]
+
+
+def r7_mode_arguments(ctx):
+    """'invalid arguments yield an error id': the mode of pathrs_inroot_mkdir_all is validated by RootRef::mkdir_all
+    before anything is looked up or created, on every path -- also when nothing needs creating (C12.R1)."""
+    from .c12 import r1_mode_validation
+    out = []
+    for i in r1_mode_validation(ctx):
+        i.rule = "C17.R7"
+        out.append(i)
+    return out
+
+
 RULES = [
     ("C17.R1", r1_fd_params, 16, True),
     ("C17.R2", r2_path_params, 19, True),
     ("C17.R3", r3_bounded_copy, 5, True),
     ("C17.R5", r5_lent_descriptors, 1, True),
     ("C17.R4", r4_no_rust_enums, 40, True),
+    ("C17.R6", r6_readlink_buffer, 1, False),
+    ("C17.R7", r7_mode_arguments, 2, True),
 ]
